@@ -598,6 +598,13 @@ class System:
                         self._g[c]._component_type.name
                     )
                 )
+        # remember PMux input entries (by name or rail) that refer to this component
+        refs = [
+            (k, i)
+            for k, pl in self._g.attrs["pnames"].items()
+            for i, p in enumerate(pl)
+            if self._get_index(p) == eidx
+        ]
         self._g[eidx] = comp
         # replace node name in graph dict
         del [self._g.attrs["nodes"][name]]
@@ -618,6 +625,9 @@ class System:
             self._g.attrs["rails"][comp._params["name"]] = ""
         else:
             self._g.attrs["rails"][comp._params["name"]] = rail
+        # PMux inputs now refer to the new component name
+        for k, i in refs:
+            self._g.attrs["pnames"][k][i] = comp._params["name"]
 
     def del_comp(self, name: str, *, del_childs: bool = True):
         """Delete component.
